@@ -180,9 +180,9 @@ func runProperty(w *World, prop, tier, vdir string, start time.Time, writeBaseli
 	if prop == "C13" {
 		rs = append(rs, portabilityResult(w))
 	}
-	quickT, fullT := 6*time.Second, 60*time.Second
+	quickT, fullT := 6*time.Second, 90*time.Second
 	if tier == "thorough" {
-		quickT, fullT = 5*time.Second, 90*time.Second
+		quickT, fullT = 5*time.Second, 150*time.Second
 	}
 	// baseline and known findings
 	var bl map[string]*baselineProp
@@ -246,7 +246,7 @@ func runProperty(w *World, prop, tier, vdir string, start time.Time, writeBaseli
 			}
 			nb.Functions[r.Name] = "ok"
 			for _, o := range r.Obls {
-				if o.Status == "unsat" && o.Secs < 20 {
+				if o.Status == "unsat" && o.Secs < 30 {
 					nb.Obligations[o.Name] = "discharged"
 				} else if o.Status == "sat" {
 					nb.Obligations[o.Name] = "fails"
